@@ -1,5 +1,6 @@
 import Rcgen.Proofs.ImportDecode
 import Rcgen.Proofs.ChainImport
+import Rcgen.Proofs.ImportSucceeds
 import Rcgen.Theorems.C02
 /-
   C17 — importing a CA certificate recovers the fields it claims to recover.
@@ -119,6 +120,52 @@ theorem ski_captured (crypto : Bool) (c : TbsCert) (b : Bytes) (rest : List Byte
 theorem reissue_key_usages (kus : List KeyUsage) :
     reqKeyUsageBits (importKeyUsages (reqKeyUsageBits kus)) = reqKeyUsageBits kus :=
   ImportFields.reissue_key_usages kus
+
+abbrev valueWellFormed := ImportSucceeds.valueWellFormed
+
+/-- **importing a generated certificate succeeds.**  The glue of `from_ca_cert_der`, applied to
+    what an RFC 5280 reader finds in a certificate rcgen generated, returns parameters (which
+    `import_of_generated` then characterises): for every subject whose values carry the
+    invariants of their string types (C13) and whose attribute identifiers are pairwise different
+    with components a `u64` holds, every CA flag with a path length a `u8` holds, every key
+    usage / extended key usage list, alternative names of the validated types, supported
+    name-constraint subtrees, any serial, validity and key-identifier method (without a crypto
+    back end the certificate has to carry a subject key identifier, as the code requires) -/
+theorem import_of_generated_succeeds (crypto : Bool) (i : CertInputs)
+    (hc : ∀ e ∈ i.p.customExts, e.oid ∉ X509.knownOids)
+    (hwf : ∀ e ∈ i.p.dn.iter, valueWellFormed e.2 = true)
+    (hu : ∀ e ∈ i.p.dn.iter, ∀ x ∈ rfcAttrOid e.1, x < 2 ^ 64)
+    (hnd : (i.p.dn.iter.map (fun e => DnType.fromOid (rfcAttrOid e.1))).Nodup)
+    (hpl : ∀ n, i.p.isCa = .ca (some n) → n ≤ 255)
+    (hip : ∀ o, SanType.ip o ∈ i.p.sans → o.length = 4 ∨ o.length = 16)
+    (hother : ∀ oid v, SanType.otherName oid v ∈ i.p.sans → utf8Valid v = true ∧ ∀ x ∈ oid, x < 2 ^ 64)
+    (hnc : ∀ nc, i.p.nameConstraints = some nc →
+      nc.permitted.all subtreeSupported = true ∧ nc.excluded.all subtreeSupported = true)
+    (hkid : crypto = true ∨ ∃ b rest, (CertDecode.modelTbs i).exts.filterMap skiOf = b :: rest) :
+    ∃ p', importCa crypto (CertDecode.modelTbs i) = .ok p' :=
+  ImportSucceeds.import_succeeds crypto i hc hwf hu hnd hpl hip hother hnc hkid
+
+/-! non-vacuity of `import_of_generated_succeeds`: a CA with a two-attribute name, a path
+    length, alternative names and a DNS name constraint meets every hypothesis -/
+def exCa : CertInputs :=
+  { H := ⟨fun _ => List.replicate 32 7, fun _ => List.replicate 48 7, fun _ => List.replicate 64 7⟩,
+    p := { (default : CertParams) with
+           dn := (DistinguishedName.new.push .org (.printable [0x4f])).push .commonName (.utf8 [0xc3, 0xa9]),
+           isCa := .ca (some 3), sans := [.dns [0x61], .ip [10, 0, 0, 1], .otherName [1, 2, 3] [0x78]],
+           nameConstraints := some { permitted := [.dns [0x62]], excluded := [.ip (.v4 [10, 0, 0, 0] [255, 0, 0, 0])] } },
+    subject := ⟨.ed25519, List.replicate 32 7⟩,
+    issuer := { dn := DistinguishedName.new, keyIdMethod := .sha256, keyUsages := [], key := ⟨.ed25519, List.replicate 32 7⟩ } }
+
+example : (∀ e ∈ exCa.p.dn.iter, valueWellFormed e.2 = true) ∧
+    (∀ e ∈ exCa.p.dn.iter, ∀ x ∈ rfcAttrOid e.1, x < 2 ^ 64) ∧
+    (exCa.p.dn.iter.map (fun e => DnType.fromOid (rfcAttrOid e.1))).Nodup ∧
+    (∀ nc, exCa.p.nameConstraints = some nc →
+      nc.permitted.all subtreeSupported = true ∧ nc.excluded.all subtreeSupported = true) := by
+  refine ⟨by decide, by decide, by decide, ?_⟩
+  intro nc h
+  injection h with h
+  subst h
+  decide
 
 /-! non-vacuity: the C02 example certificate imports (the glue returns parameters) -/
 example : (match importCa true (CertDecode.modelTbs C02.exInputs) with
